@@ -20,6 +20,21 @@ META = {
 KNOBS = dict(closures=False, defs=2, max_depth=3, block_len=(1, 4))
 
 
+# genuine defects recorded rather than repaired (known_findings.json), replayed on every run
+FINDING_PROGRAMS = [
+    ("host-crash", "module KfC14d\n  def f(a: Int): Int\n    defer println(\"d\")\n    a + 1\n  end\nend\nprintln(KfC14d.f(1).inspect)\n",
+     ("val", "d\n2\n")),
+]
+
+
+def replay_findings(ctx):
+    res = vlib.run_programs([{"id": f"k{i}", "src": src, "timeout_ms": 5000} for i, (_, src, _) in enumerate(FINDING_PROGRAMS)])
+    for (kind, src, want), a in zip(FINDING_PROGRAMS, res):
+        got = (mini_common.real_outcome(a), a["stdout"])
+        if got != want:
+            ctx.violation(kind, {"program": src}, f"expected {want}; got {got}")
+
+
 def programs(ctx, n, knobs=None, prefix="Q"):
     out = []
     for i in range(n):
@@ -41,6 +56,8 @@ def run(ctx):
     else:
         progs = mini_common.corpus_programs("C14") + programs(ctx, ctx.n(400, 12000))
     recs = mini_common.compare_programs(ctx, progs, "control-flow programs")
+    if not ctx.replay:
+        replay_findings(ctx)
     for r in recs:
         ctx.case(r["src"], nontrivial=bool(r["model_out"]),
                  sample={"program": r["src"][:600], "reference": r["model"], "stdout": r["model_out"][:200]})
